@@ -9,6 +9,7 @@ import (
 	"go/token"
 	"go/types"
 	"os"
+	"sync"
 
 	"golang.org/x/tools/go/ssa"
 )
@@ -92,8 +93,41 @@ func pureInstr(fr *frame, instr ssa.Instruction) bool {
 			case "len", "cap":
 				return true
 			}
+			return false
+		}
+		if callee := in.Call.StaticCallee(); callee != nil && in.Call.Method == nil {
+			return fnStaticallyPure(fr.i, callee)
 		}
 		return false
+	case *ssa.Lookup:
+		// string indexing with a concrete in-range index
+		x, ok := fr.env[in.X]
+		if !ok {
+			if c, isC := in.X.(*ssa.Const); isC {
+				x = constValue(c)
+				ok = true
+			}
+		}
+		if !ok {
+			return false
+		}
+		s, isStr := asSymBytes(x)
+		if _, isSlice := x.([]value); isSlice || !isStr {
+			return false
+		}
+		var iv value
+		if c, isC := in.Index.(*ssa.Const); isC {
+			iv = constValue(c)
+		} else if v, ok := fr.env[in.Index]; ok {
+			iv = v
+		} else {
+			return false
+		}
+		if _, sym := iv.(*symv); sym {
+			return false
+		}
+		k := asInt64(iv)
+		return k >= 0 && k < int64(len(s))
 	case *ssa.Jump, *ssa.If:
 		return true
 	}
@@ -122,6 +156,8 @@ func mergeRegion(fr *frame, ifInstr *ssa.If, cond *symv) (ok bool) {
 	addEdge(B, B.Succs[1], not1(cond.term))
 	evaluated := map[*ssa.BasicBlock]bool{B: true}
 	savedSteps := ex.steps
+	ex.spec++
+	defer func() { ex.spec-- }()
 	defer func() {
 		if r := recover(); r != nil {
 			if _, isFault := r.(engineFault); isFault || true {
@@ -226,14 +262,17 @@ func blockStaticallyPure(b *ssa.BasicBlock) bool {
 	for _, in := range b.Instrs {
 		switch x := in.(type) {
 		case *ssa.DebugRef, *ssa.Phi, *ssa.ChangeType, *ssa.ChangeInterface, *ssa.MakeInterface, *ssa.Field, *ssa.Extract,
-			*ssa.BinOp, *ssa.Convert, *ssa.FieldAddr, *ssa.Jump, *ssa.If:
+			*ssa.BinOp, *ssa.Convert, *ssa.FieldAddr, *ssa.Jump, *ssa.If, *ssa.Lookup:
 		case *ssa.UnOp:
 			if x.Op == token.ARROW {
 				return false
 			}
 		case *ssa.Call:
-			b, ok := x.Call.Value.(*ssa.Builtin)
-			if !ok || (b.Name() != "len" && b.Name() != "cap") {
+			if b, ok := x.Call.Value.(*ssa.Builtin); ok {
+				if b.Name() != "len" && b.Name() != "cap" {
+					return false
+				}
+			} else if x.Call.StaticCallee() == nil || x.Call.Method != nil {
 				return false
 			}
 		default:
@@ -241,6 +280,67 @@ func blockStaticallyPure(b *ssa.BasicBlock) bool {
 		}
 	}
 	return true
+}
+
+var pureFnCache sync.Map // *ssa.Function -> bool
+
+// fnStaticallyPure: a small function made only of side-effect-free instruction kinds (no stores,
+// no allocation, no calls other than len/cap, no division, no indexing).  It is evaluated
+// speculatively; a symbolic branch or implicit assertion inside it aborts the merge.
+func fnStaticallyPure(i *interpreter, fn *ssa.Function) bool {
+	if v, ok := pureFnCache.Load(fn); ok {
+		return v.(bool)
+	}
+	pure := fn.Blocks != nil && len(fn.Blocks) <= 6 && fn.Recover == nil
+	if pure {
+		if fi := i.info(fn); fi.ext != nil || fi.isVerif {
+			pure = false
+		}
+	}
+	n := 0
+	if pure {
+	outer:
+		for _, b := range fn.Blocks {
+			for _, in := range b.Instrs {
+				n++
+				switch x := in.(type) {
+				case *ssa.DebugRef, *ssa.Phi, *ssa.ChangeType, *ssa.Convert, *ssa.Jump, *ssa.If, *ssa.Return, *ssa.Extract:
+				case *ssa.BinOp:
+					if x.Op == token.QUO || x.Op == token.REM {
+						pure = false
+						break outer
+					}
+					if x.Op == token.SHL || x.Op == token.SHR {
+						if b := basicOf(x.Y.Type()); b != nil {
+							if _, signed := intBits(b); signed {
+								if c, ok := x.Y.(*ssa.Const); !ok || c.Int64() < 0 {
+									pure = false
+									break outer
+								}
+							}
+						}
+					}
+					if _, isI := x.X.Type().Underlying().(*types.Interface); isI {
+						pure = false
+						break outer
+					}
+				case *ssa.UnOp:
+					if x.Op != token.NOT && x.Op != token.SUB && x.Op != token.XOR {
+						pure = false
+						break outer
+					}
+				default:
+					pure = false
+					break outer
+				}
+			}
+		}
+	}
+	if n > 40 {
+		pure = false
+	}
+	pureFnCache.Store(fn, pure)
+	return pure
 }
 
 // setJoinPhis computes the φ-nodes of block J from the arrived edges as ite terms.
